@@ -5,7 +5,7 @@ import random
 from . import tlc, render
 from .common import Scratch, seed as _seed, vlog
 
-TEMPL_FAMILIES = ["loopif", "elif", "nested", "listidx", "swapuse", "ifaug", "opgrid"]
+TEMPL_FAMILIES = ["loopif", "elif", "nested", "listidx", "swapuse", "ifaug", "opgrid", "fixgrid"]
 SIGS = [1, 2, 3, 4, 5, 6, 7, 8, 9, 10, 11, 12, 13]
 CFG = ("SPECIFICATION Spec\nCONSTANTS MaxTok = %d\n MaxStack = %d\n MaxStmts = %d\n SigId = %d\n Stmts = %s\n Lean = %s\n"
        "INVARIANT Emit\nCHECK_DEADLOCK FALSE\n")
@@ -192,8 +192,8 @@ def generate(tier, sd):
             gstats["distinct"] += r["stats"].get("distinct", 0)
             gstats["templ_programs"] = gstats.get("templ_programs", 0) + len(ps)
             rng.shuffle(ps)
-            for p in (ps[:(260 if fam == "opgrid" else 45)] if quick else ps):
-                out.append((p, "OpGrid" if fam == "opgrid" else f"TemplGen-{fam}"))
+            for p in (ps[:(260 if fam == "opgrid" else 120 if fam == "fixgrid" else 45)] if quick else ps):
+                out.append((p, "OpGrid" if fam == "opgrid" else "FixGrid" if fam == "fixgrid" else f"TemplGen-{fam}"))
     res = []
     for p, origin in out:
         try:
@@ -217,7 +217,7 @@ def generate(tier, sd):
     return res, gstats
 
 
-QUICK_CAPS = {"OpGrid": 180, "TemplGen": 400, "ProgGen-leansim": 130, "ProgGen-lean": 260, "ProgGen-bfs": 480, "ProgGen-sim": 560}
+QUICK_CAPS = {"OpGrid": 180, "FixGrid": 120, "TemplGen": 400, "ProgGen-leansim": 130, "ProgGen-lean": 260, "ProgGen-bfs": 480, "ProgGen-sim": 560}
 
 
 def programs(pid, tier, sd):
@@ -236,7 +236,7 @@ def programs(pid, tier, sd):
         bysig = {}
         for p in ps:
             bysig.setdefault(p["origin"], []).append(p)
-        cap = QUICK_CAPS[k] if (k != "OpGrid" or pid in ("C01", "C04")) else 70   # the full operator grid for the translator check
+        cap = QUICK_CAPS[k] if (k not in ("OpGrid", "FixGrid") or pid in ("C01", "C04")) else 50   # the full operator grid for the translator check
         per = max(1, cap // max(1, len(bysig)))
         for o in sorted(bysig):
             out += bysig[o][:per]
